@@ -463,7 +463,7 @@ impl Check for AddrCheck {
         Spec {
             id: "C18",
             level: "exploration",
-            rule: "generated: codec (Bech32 / Bech32m / default MockApi), valid lower-case prefix (pool + random 1-83 chars over ASCII 33-126 incl. '1' and punctuation), canonical bytes of 1-64 bytes (zero, FF, random), two names (ASCII, unicode, empty, long; plus, as names, the made address itself and a valid address of the same codec), and 0-6 corruptions (substitution from charset or foreign chars, case flip, upper-casing, other variant, other prefix, truncate, extend, separator removal, insertion, swap, padding bits, extra symbol, or ALL single-character substitutions); every resulting string is judged by an independent reference decoder and addr_validate/addr_canonicalize must agree; round trips, determinism and trait/Api agreement checked on every case. Non-trivial: >=1 corruption applied and (canonical length != 32 or prefix contains '1' or punctuation); distinct = distinct serialised case",
+            rule: "generated: codec (Bech32 / Bech32m / default MockApi), valid lower-case prefix (pool + random 1-83 chars over ASCII 33-126 incl. '1' and punctuation), canonical bytes of 1-64 bytes (zero, FF, random), two names (ASCII, unicode, empty, long; plus, as names, the made address itself and a valid address of the same codec), and 0-6 corruptions (substitution from charset or foreign chars, case flip, upper-casing, other variant, other prefix (each also spelled in upper case), truncate, extend, separator removal, insertion, swap, padding bits, extra symbol, or ALL single-character substitutions); every resulting string is judged by an independent reference decoder and addr_validate/addr_canonicalize must agree; round trips, determinism and trait/Api agreement checked on every case. Non-trivial: >=1 corruption applied and (canonical length != 32 or prefix contains '1' or punctuation); distinct = distinct serialised case",
             assumptions: vec![
                 "prefixes are lower-case valid HRPs (encoders only emit lower case; an Api built with an upper-case prefix cannot validate its own output)",
                 "sha256 collisions do not occur between generated names",
@@ -657,6 +657,13 @@ impl Check for AddrCheck {
             for s in apply(c, &subject, case, &subject_canon) {
                 judge(api.api(), &s, prefix, v, cx)?;
                 applied += 1;
+                // ... and the same string spelled in upper case (except for the exhaustive substitution sweep)
+                if !matches!(c, Corruption::AllSubst | Corruption::UpperAll) {
+                    let up = s.to_ascii_uppercase();
+                    if up != s {
+                        judge(api.api(), &up, prefix, v, cx)?;
+                    }
+                }
             }
             cx.label(match c {
                 Corruption::Subst(..) => "corruption:subst",
